@@ -205,3 +205,36 @@ def hardpan_regime(rng, case):
     spec["reactive"] = [{"when": "top_soil_saturated", "action": "storm", "mag": rng.choice([1.0, 2.0, 5.0, 12.0]), "len": rng.choice([1, 2]),
                          "delay": rng.choice([0, 1, 1]), "max_fires": 8}]
     return case
+
+
+SHALLOW_POND_PROFILE = {"gw": 0.0, "custom_soil_p": 0.0, "soils": ["Clay", "SiltClay", "SandyClay", "Paddy", "ClayLoam"], "irr_methods": [0, 0, 0, 1],
+                        "calendar_crop_p": 0.8, "sensible_planting_p": 0.95, "n_seasons": [1, 2], "iwc_kinds": ["Pct"], "sat_start_p": 0.0,
+                        "station_p": 0.0, "events_per_year": 0.0, "dz_p": 0.0}
+
+
+def shallow_pond_regime(rng, case):
+    """Rain-fed field behind empty bunds on a slowly draining soil, a moderately dry start (a canopy that has known stress),
+    no rain except a series of single-day storms whose depth steps through (top-soil conductivity + 0..9 mm): every storm
+    leaves a pond of a few millimetres at most - the depth at which evaporation, transpiration from the pond, infiltration
+    and the aeration lag meet within one day - and the pond is gone before the next storm."""
+    from ..gen import season_spans
+    from ..spec import build_soil
+    spec = case["spec"]
+    ksat = float(build_soil(spec["soil"]).profile.Ksat.iloc[0])
+    spec["iwc"]["value"] = [rng.choice([40, 55, 70, 85]) for _ in spec["iwc"]["value"]]
+    spec["gw"] = None
+    f = dict(spec.get("field") or {})
+    f.update({"bunds": True, "z_bund": rng.choice([0.05, 0.15, 0.25]), "bund_water": 0})
+    spec["field"] = f
+    reclamp_cn(spec)
+    case["controller"] = None
+    w = spec["weather"]
+    off = (parse_date(spec["start"]) - parse_date(w["start"])).days
+    n = len(w["tmin"])
+    w["events"] = [{"kind": "drought", "day": 0, "len": n, "mag": 0.0}]
+    for a, b in season_spans(spec):
+        t = a + rng.choice([15, 25, 40])
+        while t < b + 10:
+            w["events"].append({"kind": "storm", "day": off + t, "len": 1, "mag": round(ksat + rng.uniform(0.0, 9.0), 1)})
+            t += rng.choice([4, 6, 9])
+    return case
